@@ -439,6 +439,10 @@ class State(MutableMapping):
             self._last_fork = self.auto_fork_type.to_cache(
                 {child: self._values[child] for child in (name,) + sorted_children}
             )
+        else:
+            # an assignment made without forking invalidates any pending fork:
+            # reverting to it would mix old cached values with the new assignment
+            self._last_fork = None
         # TODO? we do not "validate" / "check" input data for now
         #  (it could be a stateless variable method) to remain light
         self._values[name] = value
